@@ -290,6 +290,7 @@ func (w *World) Connect(iss uint32) {
 
 // Seg injects a raw segment from the peer.
 func (w *World) Seg(sport, dport uint16, flags uint8, seq, ack uint32, wnd uint16, opts, data []byte) {
+	w.R.Pending(fmt.Sprintf("seg %d %d %s %d %d %d %s %s", sport, dport, FlagStr(flags), seq, ack, wnd, hx.Hex(opts), hx.Hex(data)))
 	t := netsim.TCPSeg(Peer, Local, sport, dport, seq, ack, flags, wnd, opts, data)
 	pkt := netsim.IPv4(Peer, Local, 6, 9, 0, 64, t)
 	w.L.Inject(header.IPv4ProtocolNumber, "", pkt)
@@ -309,6 +310,7 @@ func (w *World) Seg(sport, dport uint16, flags uint8, seq, ack uint32, wnd uint1
 // on its own; the real timer code sees its deadline reached) and reports what the stack sent. The op line
 // carries, as a learned value, the duration in nanoseconds the timer had been armed with (d; -1 = not armed).
 func (w *World) RTO(i int, maxMs int) {
+	w.R.Pending(fmt.Sprintf("rto %d", i))
 	armed, d := tcp.VerifFireResendTimer(w.Eps[i])
 	dn := int64(-1)
 	if armed {
@@ -330,6 +332,7 @@ func (w *World) CookieMode(on bool) {
 }
 
 func (w *World) Accept() {
+	w.R.Pending("tcp.accept")
 	ep, wq, err := w.Lis.Accept()
 	if err != nil {
 		w.R.Emit("tcp.accept", errName(err)+" "+segs(w.Collect()))
@@ -341,6 +344,7 @@ func (w *World) Accept() {
 }
 
 func (w *World) Write(i int, data []byte) {
+	w.R.Pending(fmt.Sprintf("tcp.write %d %s", i, hx.Hex(data)))
 	n, _, err := w.Eps[i].Write(tcpip.SlicePayload(data), tcpip.WriteOptions{})
 	res := fmt.Sprintf("n=%d", n)
 	if err != nil {
@@ -350,6 +354,7 @@ func (w *World) Write(i int, data []byte) {
 }
 
 func (w *World) Read(i int) {
+	w.R.Pending(fmt.Sprintf("tcp.read %d", i))
 	v, _, err := w.Eps[i].Read(nil)
 	w.lastReadData = err == nil
 	res := ""
@@ -362,6 +367,7 @@ func (w *World) Read(i int) {
 }
 
 func (w *World) Shutdown(i int, how string) {
+	w.R.Pending(fmt.Sprintf("tcp.shutdown %d %s", i, how))
 	var fl tcpip.ShutdownFlags
 	if strings.Contains(how, "r") {
 		fl |= tcpip.ShutdownRead
